@@ -21,7 +21,7 @@ use radix_engine::errors::*;
 use radix_engine::system::transaction::intent_processor::TransactionProcessorError;
 use radix_transactions::manifest::*;
 use scrypto_test::prelude::*;
-use std::collections::{BTreeMap, BTreeSet};
+use std::collections::BTreeMap;
 use std::rc::Rc;
 use vf_core::{Gen, Outcome, Part};
 use vf_eng_c::pup::{enc, marker, script_manifest_args, v_own_lit, v_tuple, v_u32, B};
